@@ -83,6 +83,8 @@ def generate(ck):
             else:
                 t = {"kind": "shipped", "Sw": 0.1}
                 Sw = 0.1
+            if t["kind"] == "synthetic" and t["seed"] % 4 == 2:
+                t["family"] = "condensate"  # rows with So exactly 0 whose gas carries vaporised oil (no draw consumed)
             descs.append(
                 {
                     "kind": "table",
